@@ -44,6 +44,7 @@ type sysObj struct {
 	Detach  bool   `json:"detach,omitempty"`  // client.lifecycle.config.k8s.io/deletion: detach
 	Rev     int    `json:"rev,omitempty"`     // content revision (data.rev)
 	MutFrom *jid   `json:"mutFrom,omitempty"` // apply-time mutation source
+	MutExt  bool   `json:"mutExt,omitempty"`  // the mutation annotation lists an external source (ns1/absent) before MutFrom
 	Owner   string `json:"owner,omitempty"`   // only for pre-existing objects: owning-inventory annotation value
 }
 
@@ -56,6 +57,7 @@ type sysOpts struct {
 	Timeout     bool `json:"timeout,omitempty"` // reconcile + prune timeouts configured (short real duration)
 	EmitStatus  bool `json:"emitStatus,omitempty"`
 	Foreground  bool `json:"foreground,omitempty"` // propagation policy Foreground instead of the default Background
+	StatusAll   bool `json:"statusAll,omitempty"`  // inventory client built with StatusPolicyAll
 }
 
 // cancel: "" none | "before-sync" | "wait:<n>:<j>" (during the n-th wait group after j status deliveries) | "mut:<k>" (while mutating request k is in flight)
@@ -174,7 +176,11 @@ func manifest(o sysObj) *unstructured.Unstructured {
 	}
 	if o.MutFrom != nil {
 		s := *o.MutFrom
-		ann["config.kubernetes.io/apply-time-mutation"] = fmt.Sprintf(
+		ext := ""
+		if o.MutExt {
+			ext = "- sourceRef:\n    kind: ConfigMap\n    name: absent\n    namespace: ns1\n  sourcePath: $.data.rev\n  targetPath: $.data.other\n"
+		}
+		ann["config.kubernetes.io/apply-time-mutation"] = ext + fmt.Sprintf(
 			"- sourceRef:\n    kind: %s\n    name: %s\n    namespace: %s\n  sourcePath: $.data.rev\n  targetPath: $.data.from\n", s[3], s[1], s[0])
 	}
 	if o.Owner != "" {
@@ -514,7 +520,11 @@ func runOne(c *fakecluster.Cluster, run sysRun) (out runOut) {
 			Client:               fake.CreateHTTPClient(func(req *http.Request) (*http.Response, error) { return c.RoundTrip(group, req) }),
 		}, nil
 	}
-	invClient, err := inventory.ClusterClientFactory{StatusPolicy: inventory.StatusPolicyNone}.NewClient(f)
+	statusPolicy := inventory.StatusPolicyNone
+	if run.Opts.StatusAll {
+		statusPolicy = inventory.StatusPolicyAll
+	}
+	invClient, err := inventory.ClusterClientFactory{StatusPolicy: statusPolicy}.NewClient(f)
 	if err != nil {
 		out.Anomaly = "invclient: " + err.Error()
 		return
@@ -774,6 +784,11 @@ func runOne(c *fakecluster.Cluster, run sysRun) (out runOut) {
 				case "failed-current":
 					if deliver(id, status.FailedStatus, true, 0, false) {
 						deliver(id, status.CurrentStatus, true, 0, false)
+					}
+				case "failed-stale":
+					// reported Failed, then Current at a generation older than the applied one (a stale watch event)
+					if deliver(id, status.FailedStatus, true, 0, false) {
+						deliver(id, status.CurrentStatus, true, -1, false)
 					}
 				case "replaced":
 					deliver(id, status.CurrentStatus, true, 0, true)
